@@ -15,8 +15,15 @@ accept calls, with any set of streams stalled inside their preamble:
 * Streams stalled AFTER their preamble (complete preamble then silence, accepted but unread) go
   through the pipeline like healthy ones and hold nothing (`accepted_streams_hold_nothing`).
   The two kinds, datagrams and the session stream use disjoint queues and select branches.
+* `C07_unasked_datagrams` — the worker's `select!` loop itself (`Driver/WorkerLoop.lean`): no
+  handler body awaits anything (`source_worker_handlers_never_await`, extracted on every run), so
+  datagrams the application never asks for — any number of them — leave the datagram branch
+  pending and nothing else: every stream in quinn's backlog is accepted by the loop and the end
+  of the session stream is processed. `await_in_handler_violates`: with an awaited `send` in the
+  datagram handler two unread datagrams park the loop for good.
 -/
 import WtVerif.Props.C08
+import WtVerif.Driver.WorkerLoop
 
 namespace Props.C07
 open Handoff
@@ -249,3 +256,98 @@ example : (drain 100 (run (init 4 [2, 6, 10, 14] false)
     [.peerOpen 2, .peerOpen 6, .peerOpen 10, .peerOpen 14, .peerOpen 18])).delivered = [18] := by decide
 
 end Props.C07
+
+/-! ### the worker loop: datagrams nobody asks for -/
+
+namespace Props.C07.Loop
+open WorkerLoop
+
+/-- **Structure read from the current source**: no handler body of `run_impl`'s `select!` contains
+an `.await`, `accept_datagram` holds its queue slot before it takes a datagram out of quinn, and
+the datagram queue has room for at least one datagram. -/
+theorem source_worker_handlers_never_await :
+    Generated.WORKER_HANDLERS_AWAIT_FREE = true ∧ Generated.DGRAM_SLOT_BEFORE_READ = true ∧
+    0 < Generated.CAP_READY_DATAGRAMS := by decide
+
+theorem step_not_parked (s : St) (a : WorkerLoop.Act) (haf : s.awaitFree = true) (hp : s.parked = none) :
+    (step s a).awaitFree = true ∧ (step s a).parked = none := by
+  cases a
+  all_goals simp only [step, hp, Option.isSome_none, Bool.false_eq_true, if_false]
+  all_goals (repeat' split)
+  all_goals simp_all
+
+/-- an await-free loop is never parked, whatever the peer and the application do -/
+theorem never_parked (as : List WorkerLoop.Act) (s : St) (haf : s.awaitFree = true) (hp : s.parked = none) :
+    (run s as).awaitFree = true ∧ (run s as).parked = none := by
+  induction as generalizing s with
+  | nil => exact ⟨haf, hp⟩
+  | cons a as ih =>
+    obtain ⟨h1, h2⟩ := step_not_parked s a haf hp
+    exact ih (step s a) h1 h2
+
+/-- a loop that is not parked accepts its whole stream backlog, in order -/
+theorem accepts_backlog (n : Nat) (s : St) (hp : s.parked = none) (hn : s.strBacklog.length = n) :
+    let t := run s (List.replicate n .loopStream)
+    t.strBacklog = [] ∧ t.accepted = s.accepted ++ s.strBacklog ∧ t.parked = none ∧ t.closeSent = s.closeSent := by
+  induction n generalizing s with
+  | zero =>
+    have : s.strBacklog = [] := List.eq_nil_of_length_eq_zero hn
+    simp [run, this, hp]
+  | succ n ih =>
+    match hb : s.strBacklog with
+    | [] => rw [hb] at hn; simp at hn
+    | id :: rest =>
+      have hstep : step s .loopStream = { s with strBacklog := rest, accepted := s.accepted ++ [id] } := by
+        simp [step, hp, hb]
+      have hrest : rest.length = n := by rw [hb] at hn; simpa using hn
+      have := ih (step s .loopStream) (by rw [hstep]; exact hp) (by rw [hstep]; exact hrest)
+      simp only [run, List.replicate_succ, List.foldl_cons] at this ⊢
+      obtain ⟨h1, h2, h3, h4⟩ := this
+      refine ⟨h1, ?_, h3, ?_⟩
+      · rw [h2, hstep]; simp
+      · rw [h4, hstep]
+
+/-- **C07 for the worker loop**: under every schedule of datagrams arriving, streams being
+opened, the session being closed, the loop's branches firing and the application reading — or
+never reading — datagrams, the loop goes on to accept every stream quinn holds and to process
+the end of the session stream. -/
+theorem C07_unasked_datagrams (cap : Nat) (as : List WorkerLoop.Act) :
+    let s := run (init cap true) as
+    (serveStreams s).strBacklog = [] ∧ (serveStreams s).accepted = s.accepted ++ s.strBacklog ∧
+    (s.closeSent = true → (serveStreams s).closeSeen = true) := by
+  intro s
+  obtain ⟨_, hp⟩ := never_parked as (init cap true) rfl rfl
+  obtain ⟨h1, h2, h3, h4⟩ := accepts_backlog s.strBacklog.length s hp rfl
+  simp only [serveStreams]
+  generalize run s (List.replicate s.strBacklog.length .loopStream) = t at h1 h2 h3 h4
+  refine ⟨?_, ?_, ?_⟩
+  · simp only [step, h3, Option.isSome_none, Bool.false_eq_true, if_false]; split <;> exact h1
+  · simp only [step, h3, Option.isSome_none, Bool.false_eq_true, if_false]; split <;> exact h2
+  · intro hc
+    simp only [step, h3, Option.isSome_none, Bool.false_eq_true, if_false, h4, hc, if_true]
+
+/-- … with what the translator read from the source -/
+theorem C07_worker_loop (as : List WorkerLoop.Act) :
+    let s := run (init Generated.CAP_READY_DATAGRAMS Generated.WORKER_HANDLERS_AWAIT_FREE) as
+    (serveStreams s).strBacklog = [] ∧ (s.closeSent = true → (serveStreams s).closeSeen = true) := by
+  have h := source_worker_handlers_never_await
+  rw [h.1]
+  exact ⟨(C07_unasked_datagrams _ as).1, (C07_unasked_datagrams _ as).2.2⟩
+
+/-- a parked loop does nothing until the application reads a datagram -/
+theorem parked_does_nothing (s : St) (a : WorkerLoop.Act) (hp : s.parked.isSome = true) (ha : a ≠ .appReadDgram) :
+    (step s a).parked = s.parked ∧ (step s a).accepted = s.accepted ∧ (step s a).closeSeen = s.closeSeen := by
+  cases a <;> simp_all [step]
+
+/-- **why the structural fact matters**: with the awaited `send` in the handler (queue capacity
+1) two datagrams nobody asks for park the loop — the stream opened afterwards is never accepted
+and the close never processed -/
+theorem await_in_handler_violates :
+    (unreadDatagramsRun 1 false 2 [7]).accepted = [] ∧ (unreadDatagramsRun 1 false 2 [7]).closeSeen = false ∧
+    (unreadDatagramsRun 1 false 2 [7]).parked = some 1 := by decide
+
+/-! non-vacuity: the same schedule on the current structure; one unread datagram is harmless in both -/
+example : (unreadDatagramsRun 1 true 2 [7]).accepted = [7] ∧ (unreadDatagramsRun 1 true 2 [7]).closeSeen = true := by decide
+example : (unreadDatagramsRun 1 false 1 [7]).accepted = [7] := by decide
+
+end Props.C07.Loop
